@@ -132,7 +132,9 @@ def run(tier, seed):
                  "access is an enumerated obligation: machine-discharged, or covered by a named assumption with checked support "
                  "rules (Huffman tree build invariant A-tree, bit reader A-bits, the -lh1- adaptive tree A-lh1-tree / A-lh1-offset which "
                  "are NOT verified), or reported. Output per read <= max_read is part of the obligations (the output buffer is a "
-                 "K1-sized region). Found the -pm2- copy_decode overrun (fixed in the repo).")
+                 "K1-sized region). Found the -pm2- copy_decode overrun (fixed in the repo). Support rules under the assumptions: tree-array writers and growth guard (S-tree), builder lengths equal to the arrays passed "
+                 "(S-treelen, 57 sites), bit-count writers (S-bits), -lh1- table writers (S-lh1) and the -lh1- group pool: count only set to 0 or moved by one, every counted regrouping pass starts "
+                 "from a reset (S-lh1-pool); an assumption never absorbs an access whose own guard overshoots the array by a constant (near-miss).")
     with Context(tier) as ctx:
         from .. import selfcheck
         selfcheck.run(ctx, rep, ['range'])
